@@ -104,7 +104,7 @@ func scanAll(in []byte) scanned {
 }
 
 var originLineRe = regexp.MustCompile(`^ *[0-9]+(?: [!-~]{1,10}){1,6}$`)
-var locusRe = regexp.MustCompile(`^LOCUS +\S+ +(-?[0-9]+) (?:bp|aa)`)
+var locusRe = regexp.MustCompile(`^LOCUS[ \t]+\S+[ \t]+(-?[0-9]+) (?:bp|aa)`)
 
 // gbRecordFacts reads, independently of gts, what a GenBank record's text declares: the LOCUS length and the
 // number of residues in its ORIGIN block. countable=false when the block is not laid out line by line in the
@@ -244,6 +244,17 @@ func c07Check(c c07Case) *Violation {
 		// consistency with what the text declares
 		if s.err == nil {
 			facts := gbRecordFacts(string(in))
+			ngb := 0
+			for _, r := range s.recs {
+				if _, ok := r.(seqio.GenBank); ok {
+					ngb++
+				}
+			}
+			if ngb != len(facts) {
+				// the harness's line-based reading and gts disagree about where records start: no claim is made
+				skipCase("record-count-mismatch")
+				facts = nil
+			}
 			gi := 0
 			for i, r := range s.recs {
 				if _, ok := r.(seqio.GenBank); !ok {
